@@ -9,6 +9,7 @@ META = dict(
 JOIN = {'Clipper2Lib::ClipperBase::AddLocalMaxPoly(': 'stub_addlocalmaxpoly', 'Clipper2Lib::ClipperBase::JoinOutrecPaths(': 'stub_joinoutrecpaths',
         'double Clipper2Lib::PerpendicDistFromLineSqrd<long>(': 'stub_perpdist', 'bool Clipper2Lib::IsCollinear<long>(': 'stub_iscollinear_any'}
 OBLIGATIONS = [
+  O('C02.e-getlastop', 'eng_units.cpp', 'harness_getlastop', defs=['LN=3', 'G=4611686018427387904LL'], unwind=7, timeout=300, bound='ring of 3 output points, any coordinates in [0,2^62], front or back edge, any new point', desc='GetLastOp(e) (the point DoHorizontal registers for horizontal joins) is what AddOutPt(e, .) returned last; the other side and the ring links are intact'),
   O('C02.d-checkjoin', 'eng_units.cpp', 'harness_checkjoin', replace=JOIN, unwind=5, backend=['cadical', 'cvc5int', 'z3'], timeout=300, bound='two adjacent edges with arbitrary geometry |coord|<=2^20, hot/open/type flags, both directions, both check modes; distance kernel arbitrary', desc='a join is only ever made between two hot, closed, non-horizontal neighbours whose tops are collinear with pt (equal curr_x in the strict mode), and does exactly one contour operation'),
   O('C02.a-rectilinear-kernels', 'eng_units.cpp', 'harness_rectilinear_kernels', unwind=4, backend=['sat', 'cadical', 'kissat'], timeout=300, bound='all vertical / horizontal edges, |coord|<=2^61, every scanline y', desc='vertical edge: dx == 0 exactly and TopX == x at every y; horizontal edge: direction flags by sign of dx'),
   O('C02.b-trimhorz', 'eng_units.cpp', 'harness_trimhorz', defs=['HN=4'], unwind=8, bound='ring of 5 vertices, symbolic x, same-y pattern and LocalMax flags, both PreserveCollinear values', desc='TrimHorz ends at the vertex the specification names; dx re-set by direction'),
